@@ -162,7 +162,7 @@ def schemas(chk, scratch):
                 out.append({'name': 'repo:' + f, 'path': os.path.join(d, f), 'args': args})
     except OSError:
         pass
-    n = 8 if chk.tier == 'thorough' else 3
+    n = 16 if chk.tier == 'thorough' else 4
     gd = os.path.join(scratch, 'schemas')
     os.makedirs(gd, exist_ok=True)
     for i in range(n):
@@ -244,7 +244,7 @@ def faults_for(ctx, counts, thorough):
         modes = ['fail', 'short', 'shortfail'] if fam == 'write' else ['fail']
         for k in range(1, n + 1):
             for mode in modes:
-                errs = ERRNOS if thorough else [ERRNOS[(k + len(mode)) % 3]]
+                errs = ERRNOS + ['EDQUOT', 'EROFS'] if thorough else ERRNOS
                 for e in errs:
                     out.append({'family': fam, 'k': k, 'mode': mode, 'errno': e})
     return out
